@@ -252,6 +252,15 @@ func (v *FnVC) applyContract(fr *frame, st *State, con *Contract, callee *ssa.Fu
 			v.sc.Assert(Implies(reach, t))
 		}
 	}
+	if fr.top && callee == v.fn && con.Decreases != nil {
+		// termination: the measure is non-negative and strictly smaller at the recursive call
+		envNew := &specEnv{v: v, fr: sub, st: pre, old: pre}
+		envOld := &specEnv{v: v, fr: fr, st: fr.entry, old: fr.entry}
+		mNew := envNew.eval(con.Decreases.Expr).V.(Sc).T
+		mOld := envOld.eval(con.Decreases.Expr).V.(Sc).T
+		o := v.addObl("TERM", "decreases "+normText(con.Decreases.Text), x.Pos(), reach, And(Le(tZero, mNew), Lt(mNew, mOld)), con.Decreases.Props, "")
+		o.Clause = con.Decreases
+	}
 	var res Val
 	if con.Pure {
 		res = v.pureApp(callee, args, st, rt, reach)
